@@ -407,7 +407,7 @@ func runFilterPart(t *testing.T, part string, n int) {
 // unsafe cache-line / bit-packing accesses); the binary fuse builder's large
 // pooled buffers make it slow there, so the volume part below repeats the same
 // monitor under the invariants build.
-func TestVerifC26(t *testing.T) { runFilterPart(t, "main", vcommon.Scale(240, 12000)) }
+func TestVerifC26(t *testing.T) { runFilterPart(t, "main", vcommon.Scale(150, 8000)) }
 
 // TestVerifC26Bulk is the same monitor at volume (invariants build).
 func TestVerifC26Bulk(t *testing.T) { runFilterPart(t, "bulk", vcommon.Scale(2000, 100000)) }
@@ -421,7 +421,7 @@ func runTableCase(r *vcommon.Report, i int, rng *rand.Rand) {
 	}
 	var t *sstmodel.Table
 	for {
-		t = sstmodel.GenTable(rng, ks, sstmodel.Shape{MaxEntries: 1500, SmallValues: true, NoRangeDels: true, NoRangeKeys: true})
+		t = sstmodel.GenTable(rng, ks, sstmodel.Shape{MaxEntries: 800, SmallValues: true, NoRangeDels: true, NoRangeKeys: true})
 		if t.Opts.Filter != "none" {
 			break
 		}
@@ -457,8 +457,8 @@ func runTableCase(r *vcommon.Report, i int, rng *rand.Rand) {
 	// Every key of the table, in random order: SeekPrefixGE(prefix(key), key)
 	// must land exactly on the first entry with that user key.
 	order := rng.Perm(len(model.Entries))
-	if len(order) > 600 {
-		order = order[:600]
+	if len(order) > 400 {
+		order = order[:400]
 	}
 	for _, idx := range order {
 		e := model.Entries[idx]
@@ -516,8 +516,8 @@ func TestVerifC26Tables(t *testing.T) {
 	r := vcommon.NewReport("C26", "tables")
 	defer r.Finish(t)
 	r.Rule("each case = one random table with a filter policy (bloom / adaptive bloom / binary fuse, all table formats) read with AlwaysUseFilterBlock; " +
-		"SeekPrefixGE for (up to 600) existing keys and bare prefixes must return the first matching entry; distinct = (policy, format, entries), tables without a filter block are trivial")
-	n := vcommon.Scale(60, 3000)
+		"SeekPrefixGE for (up to 400) existing keys and bare prefixes must return the first matching entry; distinct = (policy, format, entries), tables without a filter block are trivial")
+	n := vcommon.Scale(36, 1200)
 	r.Cases(n, func(i int, rng *rand.Rand) {
 		if msg, stack := sstmodel.Guard(func() { runTableCase(r, i, rng) }); msg != "" {
 			r.Violate("panic", "panic: "+msg, map[string]any{"case": i, "panic": msg, "stack": stack}, map[string]any{"message": msg})
